@@ -14,6 +14,7 @@ import (
 
 	"github.com/thought-machine/please/src/cache"
 	"github.com/thought-machine/please/src/core"
+	"github.com/thought-machine/please/src/verifhook"
 )
 
 // C12 / C14: drives the real directory cache.
@@ -29,6 +30,7 @@ func init() {
 	register("dircache-child", dirCacheChild)
 	register("dircache-conc", dirCacheConc)
 	register("dircache-clean", dirCacheClean)
+	register("dircache-cleanrace", dirCacheCleanRace)
 }
 
 // A tree shape is a list of outputs; each output is a file, a relative symlink, or a directory with entries.
@@ -406,6 +408,77 @@ func dirCacheClean(args []string) error {
 		}
 		left, _ := filepath.Glob(filepath.Join(filepath.Dir(paths[0]), "*"))
 		emit(map[string]any{"id": c.ID, "state": state, "returnedTotalUnits": float64(total) / cleanUnit, "left": len(left)})
+		return nil
+	})
+}
+
+
+// dirCacheCleanRace: the cleaner is stopped by a gate at its k-th eviction step; the harness then marks one entry (as a
+// Store / Retrieve by this process would) and lets the cleaner go on. An entry that was still there when it was marked
+// must survive the pass.
+type cleanRaceCase struct {
+	cleanCase
+	GateAt int `json:"gateAt"`
+	Who    int `json:"who"` // 1-based index of the entry marked during the pass
+}
+
+func dirCacheCleanRace(args []string) error {
+	defer flush()
+	scratch := os.Getenv("VERIF_SCRATCH")
+	return readCases(args[0], func(raw json.RawMessage) error {
+		var c cleanRaceCase
+		if err := json.Unmarshal(raw, &c); err != nil {
+			return err
+		}
+		base := filepath.Join(scratch, fmt.Sprintf("clr%d", c.ID))
+		defer os.RemoveAll(base)
+		dc := cache.VerifNewDirCache(filepath.Join(base, "cache"), c.Compress)
+		tgt := dcTarget()
+		paths := make([]string, len(c.Entries))
+		now := time.Now()
+		exists := func(i int) bool { _, err := os.Lstat(paths[i]); return err == nil }
+		for i, e := range c.Entries {
+			key := []byte(fmt.Sprintf("%020d", i+1))
+			p := dc.Path(tgt, key)
+			paths[i] = p
+			file := p
+			if !c.Compress {
+				os.MkdirAll(p, 0775)
+				file = filepath.Join(p, "artifact")
+			} else {
+				os.MkdirAll(filepath.Dir(p), 0775)
+			}
+			f, err := os.Create(file)
+			if err != nil {
+				return err
+			}
+			f.Truncate(int64(e.Size) * cleanUnit)
+			f.Close()
+			at := now.Add(-time.Duration(3-e.Atime) * time.Hour)
+			os.Chtimes(file, at, at)
+			os.Chtimes(p, at, at)
+			if e.Marked {
+				dc.Mark(p, uint64(e.Size)*cleanUnit)
+			}
+		}
+		reached, release := verifhook.SetGate("dircache.clean.next", c.GateAt)
+		done := make(chan struct{})
+		go func() {
+			dc.Clean(uint64(c.High)*cleanUnit-cleanUnit/2, uint64(c.Low)*cleanUnit-cleanUnit/2)
+			close(done)
+		}()
+		gated, presentAtMark := false, false
+		select {
+		case <-reached:
+			gated = true
+			presentAtMark = exists(c.Who - 1)
+			dc.Mark(paths[c.Who-1], uint64(c.Entries[c.Who-1].Size)*cleanUnit)
+			release()
+			<-done
+		case <-done:
+			verifhook.SetGate("", 0) // the pass had fewer steps than the gate position
+		}
+		emit(map[string]any{"id": c.ID, "gated": gated, "presentAtMark": presentAtMark, "presentAtEnd": exists(c.Who - 1)})
 		return nil
 	})
 }
